@@ -91,10 +91,12 @@ ChmodTmp(ok) ==
 
 (* one write to the temporary file; afterwards the input may turn out to be bad *)
 WriteTmp(ok) ==
-  /\ pc = "copy" /\ tmp = "open" /\ nw < MaxWrites /\ Fault(ok) /\ Lbl("write", "tmp", ok)
+  /\ pc \in {"copy", "flushed"} /\ tmp = "open" /\ nw < MaxWrites /\ Fault(ok) /\ Lbl("write", "tmp", ok)
   /\ nw' = nw + 1
   /\ IF ok
-       THEN \/ /\ tmpc' \in {"partial", "complete"} /\ pc' = "copy" /\ UNCHANGED failing
+       THEN \/ /\ tmpc' \in (IF nw + 1 = MaxWrites THEN {"complete"} ELSE {"partial", "complete"})
+               /\ ~(inp.bad \in {"copy", "index"} /\ nw + 1 = MaxWrites)      \* a bad input is noticed at the latest now
+               /\ pc' = "copy" /\ UNCHANGED failing
             \/ /\ inp.bad \in {"copy", "index"} /\ tmpc' = "partial"
                /\ failing' = TRUE /\ pc' \in TmpCleanup
        ELSE /\ tmpc' = "partial" /\ failing' = TRUE /\ pc' \in TmpCleanup
@@ -109,12 +111,11 @@ FlushTmp(ok) ==
 
 CloseTmp(ok) ==
   /\ pc \in {"flushed", "close_then_ret", "abort_close"} /\ tmp = "open"
-  /\ (~ok => pc = "flushed") /\ Fault(ok) /\ Lbl("close", "tmp", ok)
+  /\ Fault(ok) /\ Lbl("close", "tmp", ok)
   /\ tmp' = "closed"
-  /\ IF pc = "flushed"
-       THEN IF ok THEN pc' = "closed" /\ UNCHANGED failing
-            ELSE failing' = TRUE /\ pc' = "ret"
-       ELSE pc' = (IF pc = "abort_close" THEN "abort_unlink" ELSE "ret") /\ UNCHANGED failing
+  /\ IF ~ok THEN failing' = TRUE /\ pc' = "ret"
+     ELSE /\ UNCHANGED failing
+          /\ pc' = (IF pc = "flushed" THEN "closed" ELSE IF pc = "abort_close" THEN "abort_unlink" ELSE "ret")
   /\ UNCHANGED <<kind, inp, tmpc, pack, packc, lock, lockc, idx, idxc, validated, res, madded, nw>>
 
 UnlinkTmp(ok) ==
@@ -142,7 +143,7 @@ CreateLock(ok) ==
 WriteLock(ok) ==
   /\ pc = "lockopen" /\ lock = "open" /\ nw < MaxWrites /\ Fault(ok) /\ Lbl("write", "lock", ok)
   /\ nw' = nw + 1
-  /\ IF ok THEN lockc' \in {"partial", "complete"} /\ UNCHANGED <<pc, failing>>
+  /\ IF ok THEN lockc' \in (IF nw + 1 = MaxWrites THEN {"complete"} ELSE {"partial", "complete"}) /\ UNCHANGED <<pc, failing>>
      ELSE lockc' = "partial" /\ failing' = TRUE /\ pc' = "lock_abort"
   /\ UNCHANGED <<kind, inp, tmp, tmpc, pack, packc, lock, idx, idxc, validated, res, madded>>
 
@@ -204,13 +205,13 @@ MSpool ==
 
 MInflate ==
   /\ pc = "m_inflate" /\ Lbl("inflate", "mem", TRUE)
-  /\ IF madded < 2 /\ ~(inp.bad = "index" /\ madded = 1)
-       THEN /\ madded' = madded + 1 /\ UNCHANGED <<pc, failing>>       \* MemAtomic: collected, published below
-       ELSE IF inp.bad = "index"
-         THEN /\ failing' = TRUE /\ pc' = "ret"                        \* e.g. UnresolvedDeltas after one object was yielded
-              /\ madded' = IF MemAtomic THEN 0 ELSE madded
-         ELSE /\ pc' = "ret" /\ validated' = TRUE /\ UNCHANGED <<failing, madded>>
-  /\ UNCHANGED <<kind, inp, fs, res, nw, faults>> /\ (pc' # "ret" \/ failing' => UNCHANGED validated)
+  /\ \/ /\ madded < 2 /\ ~(inp.bad = "index" /\ madded = 1)
+        /\ madded' = madded + 1 /\ UNCHANGED <<pc, failing, validated>>
+     \/ /\ inp.bad = "index" /\ madded = 1        \* e.g. UnresolvedDeltas after one object was yielded
+        /\ failing' = TRUE /\ pc' = "ret" /\ madded' = (IF MemAtomic THEN 0 ELSE madded) /\ UNCHANGED validated
+     \/ /\ madded = 2 /\ inp.bad # "index"
+        /\ pc' = "ret" /\ validated' = TRUE /\ UNCHANGED <<failing, madded>>
+  /\ UNCHANGED <<kind, inp, fs, res, nw, faults>>
 
 Next ==
   \/ \E ok \in BOOLEAN : \/ CreateTmp(ok) \/ ChmodTmp(ok) \/ WriteTmp(ok) \/ FlushTmp(ok) \/ CloseTmp(ok)
